@@ -76,7 +76,7 @@ BlSpec == BlInit /\ [][BlNext]_vars
 RangeIsPrefix ==
     \A v \in Probes : Blocked(v, rules) <=> \E i \in CidrIdx(lines) : PrefixEq(v, lines[i].ip, lines[i].p)
 StreeExact ==
-    \A v \in Probes : StreeContains(v, rules) <=> Blocked(v, rules)
+    StreeHits(Probes, rules) = {v \in Probes : Blocked(v, rules)}
 OnlyLoaded == rules = RulesOf(lines)
 BlInv == RangeIsPrefix /\ StreeExact /\ OnlyLoaded
 
